@@ -42,6 +42,8 @@ def run(ctx, report: Report) -> None:
 
     # ---- R3 ----------------------------------------------------------------------------------------------
     r3 = report.rule('C05-R3', 'HTML-only context is restored per activation; the gate is document-level', floor=22)
+    from .sem import context_restore_table
+    context_restore_table(ctx, r3)
     from .c04 import swap_restore
     attrs, problems = swap_restore(mmod, ms)
     r3.instance({'attributes_swapped': sorted(attrs), 'problems': [f'{a}: {st}' for a, st, _, _ in problems]}, key='swap')
@@ -153,4 +155,10 @@ def run(ctx, report: Report) -> None:
     from .sem import default_button_table, lang_memo_table
     default_button_table(ctx, r3)
     lang_memo_table(ctx, r3)
+
+    # ---- R6 (texts compiled by interpretation, bounded) -----------------------------------------------------------------
+    r6 = report.rule('C05-R6', 'a list compiles to the concatenation of its alternatives, also inside :is() / :where() / :not() (bounded)', floor=1)
+    from .e2etab import list_union_table
+    list_union_table(ctx, r6, deep=(ctx.tier == 'thorough'))
+
 
